@@ -903,8 +903,11 @@ func (p *Parser) parseNameString() ([]byte, parseResult) {
 
 	switch next {
 	case 0x00: // NullName (null string or a name terminator)
-		startOffset = p.r.Offset()
-		// return empty string
+		// The name consists of its prefix characters only, e.g. "\" for
+		// Scope(\); without a prefix it is the empty string.
+		str.Len = int(p.r.Offset() - 1 - startOffset)
+		str.Cap = str.Len
+		return *(*[]byte)(unsafe.Pointer(&str)), res
 	case 0x2e: // DualNamePath := DualNamePrefix NameSeg NameSeg
 		endOffset = p.r.Offset() + uint32(amlNameLen*2)
 		if endOffset > p.r.pkgEnd {
